@@ -401,23 +401,38 @@ def run(P, C):
     if sel is None:
         raise core.AnalysisBroken("walk_descents: selection loop (reads of .residual) not found")
     n = W.nodes[sel]
-    shape = (W.render(n["init"]), W.render(n["cond"]), W.render(n["inc"]))
-    asc = shape[0].replace(" ", "") == "(j=0)" and shape[1].replace(" ", "") == "(j<n_threads)" and shape[2].replace(" ", "") in ("(j++)", "(++j)")
-    C.ob("MT-6", "walk_descents", "ascending-scan", asc, W.loc(sel), "selection loop header %s" % (shape,))
-    succ_st = [x for x in W.walk(n["body"]) if W.k(x) == "BinaryOperator" and W.nodes[x]["op"] == "=" and W.render(W.nodes[x]["ch"][0]) == "success"]
-    ok = False
-    if succ_st:
-        comp = next((a for a in W.ancestors(succ_st[0]) if W.k(a) == "CompoundStmt"), None)
-        kids = W.ch(comp) if comp is not None else []
-        ok = bool(kids) and W.k(kids[-1]) == "BreakStmt"
+    from . import gw as _gw
+    from . import ts as _ts
+    cl = _gw._c_canonical_loop(W, sel, allow_break=True)
+    jid = cl[0] if cl else None
+    bnd = W.strip(W.nodes[W.strip(n["cond"])]["ch"][1]) if cl else -1
+    tid = W.nodes[bnd]["decl"]["id"] if bnd >= 0 and W.k(bnd) == "DeclRefExpr" else None
+    asc = cl is not None and tid is not None
+    C.ob("MT-6", "walk_descents", "ascending-scan", asc, W.loc(sel), "selection loop counts a trial index up from 0 to the worker count: %s" % (cl,))
+    # the success flag: the variable set in the branch of the scan that ends in break
+    succ_st = []
+    for x in W.walk(n["body"]):
+        ap = _ts.assign_parts(W, x)
+        if ap and W.nodes[x].get("op") == "=" and W.k(W.strip(ap[0])) == "DeclRefExpr" and W.nodes[W.strip(ap[1])].get("cv") == 1:
+            comp = next((a_ for a_ in W.ancestors(x) if W.k(a_) == "CompoundStmt"), None)
+            kids = W.ch(comp) if comp is not None else []
+            if kids and W.k(kids[-1]) == "BreakStmt":
+                succ_st.append(x)
+    sid = W.nodes[W.strip(_ts.assign_parts(W, succ_st[0])[0])]["decl"]["id"] if succ_st else None
+    ok = bool(succ_st) and all(W.nodes[W.strip(_ts.assign_parts(W, x)[0])]["decl"]["id"] == sid for x in succ_st)
     C.ob("MT-6", "walk_descents", "break-at-first-success", ok, W.loc(succ_st[0]) if succ_st else W.loc(sel),
          "the branch that records success ends in break, so later (smaller) step lengths are not considered")
-    outer = next((a for a in W.ancestors(sel) if W.k(a) == "ForStmt"), None)
+    outer = next((a_ for a_ in W.ancestors(sel) if W.k(a_) == "ForStmt"), None)
     ok = False
+    iid = None
     if outer is not None:
+        co = _gw._c_canonical_loop(W, outer, allow_break=True)
+        iid = co[0] if co else None
         body = W.nodes[outer]["body"]
         first_if = [x for x in W.ch(body) if W.k(x) == "IfStmt"]
-        ok = bool(first_if) and W.render(W.nodes[first_if[0]]["cond"]) == "success" and any(W.k(y) == "BreakStmt" for y in W.walk(W.nodes[first_if[0]]["then"]))
+        c0 = W.strip(W.nodes[first_if[0]]["cond"]) if first_if else -1
+        ok = bool(first_if) and W.k(c0) == "DeclRefExpr" and W.nodes[c0]["decl"]["id"] == sid and sid is not None and \
+            any(W.k(y) == "BreakStmt" for y in W.walk(W.nodes[first_if[0]]["then"]))
     C.ob("MT-6", "walk_descents", "no-further-blocks-after-success", ok, W.loc(outer) if outer is not None else W.where(),
          "the block loop stops once a step was selected")
 
@@ -425,35 +440,89 @@ def run(P, C):
     C.rule("MT-8", "trial j of block i always stands for the global step index i*n_threads+j: the same affine form selects the step length handed to "
            "the worker, bounds the RUN loop, the completion check and the selection scan, and is compared with n_alpha-1 for the last step — so "
            "the chosen step is min{k >= 1 : residual_k < residual_0} or the last one, for any block size", floor=4)
-    from . import vg as _vg
     from ..core import Poly as _Poly
-    want = _Poly({("i", "n_threads"): 1}) + _Poly.atom("j")
+    if None in (iid, jid, tid):
+        raise core.AnalysisBroken("MT-8: block loop / trial loop / worker count not identified")
+    iname, jname, tname = W.var_name(iid), W.var_name(jid), W.var_name(tid)
+    want = _Poly({tuple(sorted((iname, tname))): 1}) + _Poly.atom(jname)
     posW = W.node_positions()
     uses = []
+    nalpha = set()
+    alpha_field = [x for x in W.walk() if _ts.assign_parts(W, x) and field_access(W, W.strip(_ts.assign_parts(W, x)[0])) == "alpha"]
+    alpha_ids = set()
+    for x in alpha_field:
+        for y in W.walk(_ts.assign_parts(W, x)[1]):
+            if W.k(y) == "DeclRefExpr" and "*" in W.nodes[y].get("t", ""):
+                alpha_ids.add(W.nodes[y]["decl"]["id"])
     for x in W.walk():
         n_ = W.nodes[x]
         if n_["k"] == "BinaryOperator" and n_["op"] in (">=", "=="):
             l = core.poly(W, n_["ch"][0])
-            r = W.render(n_["ch"][1]).replace(" ", "")
-            if l == want and r in ("n_alpha", "(n_alpha-1)"):
-                uses.append((x, "bound" if r == "n_alpha" else "last"))
-        if n_["k"] == "ArraySubscriptExpr" and W.render(n_["ch"][0]) == "alpha" and "cv" not in W.nodes[W.strip(n_["ch"][1])] \
-                and x in posW and posW[x][0] in conc:
+            r = W.strip(n_["ch"][1])
+            if l == want:
+                if W.k(r) == "DeclRefExpr" and n_["op"] == ">=":
+                    uses.append((x, "bound"))
+                    nalpha.add(W.nodes[r]["decl"]["id"])
+                elif W.k(r) == "BinaryOperator" and W.nodes[r]["op"] == "-" and W.nodes[W.strip(W.nodes[r]["ch"][1])].get("cv") == 1 and \
+                        W.k(W.strip(W.nodes[r]["ch"][0])) == "DeclRefExpr" and n_["op"] == "==":
+                    uses.append((x, "last"))
+                    nalpha.add(W.nodes[W.strip(W.nodes[r]["ch"][0])]["decl"]["id"])
+        if n_["k"] == "ArraySubscriptExpr" and W.k(W.strip(n_["ch"][0])) == "DeclRefExpr" and W.nodes[W.strip(n_["ch"][0])]["decl"]["id"] in alpha_ids \
+                and "cv" not in W.nodes[W.strip(n_["ch"][1])] and x in posW and posW[x][0] in conc:
             uses.append((x, "alpha" if core.poly(W, n_["ch"][1]) == want else "alpha-other:" + W.render(n_["ch"][1])))
     kinds = [k for _x, k in uses]
+    one_count = len(nalpha) == 1
     C.ob("MT-8", "walk_descents", "step-handed-to-worker", kinds.count("alpha") >= 1 and not any(k.startswith("alpha-other") for k in kinds if k != "alpha"),
-         W.where(), "descent_trials[j].alpha = &alpha[i*n_threads + j] (other index forms into alpha: %s)" % [k for k in kinds if k.startswith("alpha-other")])
-    C.ob("MT-8", "walk_descents", "range-bounds", kinds.count("bound") == 3, W.where(),
-         "the RUN loop, the completion check and the selection scan all stop at i*n_threads + j >= n_alpha (%d of 3)" % kinds.count("bound"))
-    C.ob("MT-8", "walk_descents", "last-step-test", kinds.count("last") == 1, W.where(), "the fallback to the last step tests i*n_threads + j == n_alpha-1")
+         W.where(), "the step length handed to trial j of block i is element i*workers + j of the step array (other index forms: %s)" % [k for k in kinds if k.startswith("alpha-other")])
+    C.ob("MT-8", "walk_descents", "range-bounds", kinds.count("bound") == 3 and one_count, W.where(),
+         "the RUN loop, the completion check and the selection scan all stop at i*workers + j >= number of steps (%d of 3, one count parameter: %s)" % (kinds.count("bound"), one_count))
+    C.ob("MT-8", "walk_descents", "last-step-test", kinds.count("last") == 1 and one_count, W.where(), "the fallback to the last step tests i*workers + j == number of steps - 1")
     # the reference residual is the one of global index 0
-    ref = [x for x in W.walk() if W.k(x) == "IfStmt" and W.render(W.nodes[x]["cond"]).replace(" ", "") == "((i==0)&&(j==0))"]
-    okr = bool(ref) and "(res=descent_trials[j].residual)" in W.render(W.nodes[ref[0]]["then"]).replace(" ", "")
-    C.ob("MT-8", "walk_descents", "reference-residual", okr, W.loc(ref[0]) if ref else W.where(), "res is the residual of global step 0 (alpha = 0)")
-    blk = [W.render(d["init"]).replace(" ", "") for x in W.walk() if W.k(x) == "DeclStmt" for d in W.nodes[x]["decls"] if d.get("name") == "n_blocks" and d.get("init", -1) >= 0]
-    blk += [W.render(ts_assign[1]).replace(" ", "") for ts_assign in [__import__("psv.rules.ts", fromlist=["x"]).assign_parts(W, x) for x in W.walk()] if ts_assign and ts_assign[1] is not None and W.render(ts_assign[0]) == "n_blocks"]
-    C.ob("MT-8", "walk_descents", "block-count", any("ceil((n_alpha/(double)n_threads))" in b or "ceil(n_alpha/(double)n_threads)" in b.replace("((double)n_threads)", "(double)n_threads") for b in blk), W.where(),
-         "blocks cover all steps: n_blocks = ceil(n_alpha / n_threads): %s" % blk)
+    okr = False
+    ref = []
+    for x in W.walk():
+        if W.k(x) != "IfStmt":
+            continue
+        conn, leaves = core.cond_leaves(W, W.nodes[x]["cond"])
+        zs = set()
+        for lf in leaves:
+            c_ = W.nodes[W.strip(lf)]
+            if c_["k"] == "BinaryOperator" and c_["op"] == "==" and W.nodes[W.strip(c_["ch"][1])].get("cv") == 0 and W.k(W.strip(c_["ch"][0])) == "DeclRefExpr":
+                zs.add(W.nodes[W.strip(c_["ch"][0])]["decl"]["id"])
+        if conn == "&&" and zs == {iid, jid}:
+            ref.append(x)
+    res_id = None
+    if ref:
+        for y in W.walk(W.nodes[ref[0]]["then"]):
+            ap = _ts.assign_parts(W, y)
+            if ap and W.k(W.strip(ap[0])) == "DeclRefExpr" and field_access(W, W.strip(ap[1])) == "residual":
+                res_id = W.nodes[W.strip(ap[0])]["decl"]["id"]
+                sub = W.strip(W.nodes[W.strip(ap[1])]["ch"][0])
+                okr = W.k(sub) == "ArraySubscriptExpr" and W.k(W.strip(W.nodes[sub]["ch"][1])) == "DeclRefExpr" and W.nodes[W.strip(W.nodes[sub]["ch"][1])]["decl"]["id"] == jid
+    C.ob("MT-8", "walk_descents", "reference-residual", okr, W.loc(ref[0]) if ref else W.where(), "the reference residual is the one of global step 0 (alpha = 0)")
+    # blocks cover all steps: bound of the block loop is ceil(steps / workers)
+    bvar = W.strip(W.nodes[W.strip(W.nodes[outer]["cond"])]["ch"][1]) if outer is not None else -1
+    bid = W.nodes[bvar]["decl"]["id"] if bvar >= 0 and W.k(bvar) == "DeclRefExpr" else None
+    defs = []
+    for x in W.walk():
+        if W.k(x) == "DeclStmt":
+            defs += [d["init"] for d in W.nodes[x]["decls"] if d.get("id") == bid and d.get("init", -1) >= 0]
+        ap = _ts.assign_parts(W, x)
+        if ap and ap[1] is not None and W.k(W.strip(ap[0])) == "DeclRefExpr" and W.nodes[W.strip(ap[0])]["decl"]["id"] == bid:
+            defs.append(ap[1])
+    def is_ceil_div(d):
+        cs_ = [y for y in W.walk(d) if (W.nodes[y].get("callee") or {}).get("name") == "ceil"]
+        if len(cs_) != 1:
+            return False
+        arg = W.strip(W.args(cs_[0])[0])
+        if W.k(arg) != "BinaryOperator" or W.nodes[arg]["op"] != "/":
+            return False
+        num = [W.nodes[y]["decl"]["id"] for y in W.walk(W.nodes[arg]["ch"][0]) if W.k(y) == "DeclRefExpr"]
+        den = [W.nodes[y]["decl"]["id"] for y in W.walk(W.nodes[arg]["ch"][1]) if W.k(y) == "DeclRefExpr"]
+        isdbl = "double" in W.nodes[W.nodes[arg]["ch"][0]].get("t", "") or "double" in W.nodes[W.nodes[arg]["ch"][1]].get("t", "")
+        return num == list(nalpha) and den == [tid] and isdbl
+    C.ob("MT-8", "walk_descents", "block-count", len(defs) == 1 and is_ceil_div(defs[0]), W.where(),
+         "blocks cover all steps: the block loop runs to ceil(steps / workers) computed in floating point")
 
     # ---------------- MT-7 shared objects
     struct = None
